@@ -3,10 +3,15 @@
 set -u
 id=$1; name=$2; wt=$3; tier=${4:-quick}
 cd /verif
-[ -z "$(git -C /repo status --porcelain)" ] || { echo "/repo dirty"; exit 2; }
-git -C /repo apply "$wt/_out/patch.diff" || exit 2
-./check $id --tier $tier --no-evidence > /tmp/seedrun-$name.log 2>&1; rc=$?
-git -C /repo checkout -- .
+if [ -n "${SEED_IN_WORKTREE:-}" ]; then
+  # /repo is in use by a long run: check the worktree (patch applied there) with its own scratch and binaries
+  VERIF_REPO=$wt VERIF_SCRATCH=/tmp/verif-scratch-seed VERIF_BIN=/tmp/verif-bin-seed ./check $id --tier $tier --no-evidence > /tmp/seedrun-$name.log 2>&1; rc=$?
+else
+  [ -z "$(git -C /repo status --porcelain)" ] || { echo "/repo dirty"; exit 2; }
+  git -C /repo apply "$wt/_out/patch.diff" || exit 2
+  ./check $id --tier $tier --no-evidence > /tmp/seedrun-$name.log 2>&1; rc=$?
+  git -C /repo checkout -- .
+fi
 echo "check $id on seed $name: exit=$rc"
 grep -E "VIOLATION|KNOWN-FINDING|held|runs" /tmp/seedrun-$name.log | head -8
 exit 0
